@@ -85,7 +85,8 @@ def run(ctx, rep):
         return any(s_["rv"]["k"] == "binop" and s_["rv"]["op"] == "BitXor" for u in prog.unit(g) for _, _, s_ in u.assigns())
     keep = (xor_like,)
     state_param = lambda f: [p for p in cm.params_of(f) if f.locals[p]["t"].endswith("State") and "mut" in f.locals[p]["t"]][0]
-    V = {f.key: inline(prog, f, keep=keep) for f in (push, pull, rekey, ipush, ipull)}
+    # (the crate's small arithmetic/byte utilities in utils.rs are folded in as well, except the xor)
+    V = {f.key: inline(prog, f, keep=keep, cross=lambda g: g.path.startswith("utils::") and g.vis != "pub") for f in (push, pull, rekey, ipush, ipull)}
     # ---- EVOLVE -------------------------------------------------------------------------------
     for f0 in (push, pull):
         f = V[f0.key]
